@@ -167,6 +167,22 @@ func (d *c12Dag) seqRead(n datamodel.Node, buf int, firstFail int64, what string
 			return
 		}
 		got, err = readAllBuf(rs, buf, 8*len(d.content)+64)
+		// the same reader after the error: rewound, it delivers the same prefix
+		// and the load error again (an error is not a state of the reader); from
+		// inside the prefix it delivers the rest of the prefix
+		if d.sized && d.c.Kind == "file" && err != nil && err != io.EOF && store.IsInjected(err) {
+			for _, from := range []int64{0, int64(len(got)) / 2} {
+				if _, serr := rs.Seek(from, io.SeekStart); serr != nil {
+					viol("seek-after-load-error", fmt.Sprintf("%s %s buf=%d: Seek(%d) after a load error: %v", d.c, what, buf, from, serr))
+					break
+				}
+				got2, err2 := readAllBuf(rs, buf, 8*len(d.content)+64)
+				if !bytes.Equal(got2, got[from:]) || err2 == nil || err2 == io.EOF || !store.IsInjected(err2) {
+					viol("reread-after-load-error", fmt.Sprintf("%s %s buf=%d: first pass %d bytes then %q; after Seek(%d) the same reader gives %d bytes then %v, want the %d bytes up to the missing block and the load error", d.c, what, buf, len(got), err, from, len(got2), err2, int64(len(got))-from))
+					break
+				}
+			}
+		}
 	}
 	mode := fmt.Sprintf("buf=%d", buf)
 	// a withheld block with an empty byte span: the reader may open it when it
